@@ -31,6 +31,19 @@ Section Ws.
     apply cs_push_pending; [|apply wse_feq; exact WT]. apply L; [exact SZ|exact WB|apply cs_empty_refl].
   Qed.
 
+  Lemma expr_struct2 n : NodeN2 n -> forall a a' aps p p', isize2 a <= n -> wsv2 a a' ->
+    sopt (expr_node2 cx aps p a) = sopt (expr_node2 cx aps p' a').
+  Proof.
+    intros NN a.
+    induction a as [ws cs| |ws nm post ma| | | | |ws ch sa| | | | | |ws tx post a0 IHa]; intros a' aps p p' SZ W;
+      destruct a' as [ws' cs'| |ws' nm' post' ma'| | | | |ws' ch' sa'| | | | | |ws' tx' post' a0']; try contradiction;
+      cbn [expr_node2]; try (apply NN; [exact SZ|exact W]).
+    - cbn [wsv2] in W. destruct W as [_ <-]. reflexivity.
+    - cbn [wsv2] in W. destruct W as (_ & <- & _). reflexivity.
+    - cbn [wsv2] in W. destruct W as (_ & <- & _). reflexivity.
+    - cbn [wsv2] in W. destruct W as (_ & _ & _ & W). cbn [isize2] in SZ. apply IHa; [lia|exact W].
+  Qed.
+
   Lemma args_struct2 n : NodeN2 n -> forall args args' l ps p p', lsize2 args <= n -> wsv_items2 args args' ->
     structure_args (fst (arg_nodes2 cx ps p args l)) = structure_args (fst (arg_nodes2 cx ps p' args' l)).
   Proof.
@@ -45,12 +58,8 @@ Section Ws.
                     = sopt (node_of2 cx (apply_adelta ps (a_delta spc)) (p' + length (item_ws2 a')) a'))
           by (apply NN; [lia|exact Wa]).
         destruct (a_kind spc) as [sp0|? ? ? ?|ch sp full|?]; try exact G.
-        * destruct a as [ws cs| |ws nm post ma| | | | |ws ch sa| | | | |];
-            destruct a' as [ws' cs'| |ws' nm' post' ma'| | | | |ws' ch' sa'| | | | |]; try contradiction; try exact G.
-          -- cbn [wsv2] in Wa. destruct Wa as [_ <-]. reflexivity.
-          -- cbn [wsv2] in Wa. destruct Wa as (_ & <- & _). reflexivity.
-          -- cbn [wsv2] in Wa. destruct Wa as (_ & <- & _). reflexivity.
-        * destruct a as [ws cs| | | | | | | | | | | |]; destruct a' as [ws' cs'| | | | | | | | | | | |]; try contradiction; try exact G.
+        * apply (expr_struct2 n NN); [lia|exact Wa].
+        * destruct a as [ws cs| | | | | | | | | | | | |]; destruct a' as [ws' cs'| | | | | | | | | | | | |]; try contradiction; try exact G.
           cbn [wsv2] in Wa. destruct Wa as [_ <-]. destruct full; reflexivity.
       + apply IH; [lia|exact Wr].
   Qed.
@@ -58,8 +67,8 @@ Section Ws.
   Lemma node_step2 n : NodeN2 n -> ListN2 n -> NodeN2 (S n).
   Proof.
     intros NN LN i i' SZ W ps p p'.
-    destruct i as [ws cs|ws b tr|ws name post args|ws k b tr|ws text post|ws mid|ws bws name args b tr ews|ws chars args|ws name post dc text|ws bws name oarg text|ws oc cc b tr| |vw od cd vt];
-      destruct i' as [ws' cs'|ws' b' tr'|ws' name' post' args'|ws' k' b' tr'|ws' text' post'|ws' mid'|ws' bws' name' args' b' tr' ews'|ws' chars' args'|ws' name' post' dc' text'|ws' bws' name' oarg' text'|ws' oc' cc' b' tr'| |vw' od' cd' vt'];
+    destruct i as [ws cs|ws b tr|ws name post args|ws k b tr|ws text post|ws mid|ws bws name args b tr ews|ws chars args|ws name post dc text|ws bws name oarg text|ws oc cc b tr| |vw od cd vt|pw ptx ppost pa0];
+      destruct i' as [ws' cs'|ws' b' tr'|ws' name' post' args'|ws' k' b' tr'|ws' text' post'|ws' mid'|ws' bws' name' args' b' tr' ews'|ws' chars' args'|ws' name' post' dc' text'|ws' bws' name' oarg' text'|ws' oc' cc' b' tr'| |vw' od' cd' vt'|pw' ptx' ppost' pa0'];
       try contradiction; cycle 4.
     - cbn [wsv2] in W. destruct W as (W1 & <- & W2). repeat split.
     - cbn [node_of2]. destruct (par_spec_ok cx); repeat split.
@@ -125,6 +134,7 @@ Section Ws.
       erewrite (close_struct2 n LN b b' tr tr'); [reflexivity|lia|exact W3|exact W2].
     - (* absent argument *) repeat split.
     - (* verbatim argument *) cbn [wsv2] in W. destruct W as (W1 & <- & <- & <-). repeat split.
+    - (* a comment in front of an argument *) repeat split.
     - repeat split.
     - cbn [wsv2] in W. destruct W as (W1 & W2 & W3). fold (wsv_items2 b b') in W3.
       cbn [isize2] in SZ. fold (lsize2 b) in SZ.
@@ -159,8 +169,8 @@ Section Ws.
     rewrite lsize_cons2 in SZ. pose proof (isize_pos2 i). rewrite !absorb_cons2.
     apply LN; [lia|exact Wr|].
     destruct (NN i i' ltac:(lia) Wi ps (p + length (item_ws2 i)) (p' + length (item_ws2 i'))) as (N1 & N2 & N3).
-    destruct i as [ws cs|ws b tr|ws name post args|ws k b tr|ws text post|ws mid|ws bws name args b tr ews|ws chars args|ws name post dc text|ws bws name oarg text|ws oc cc b tr| |vw od cd vt];
-      destruct i' as [ws' cs'|ws' b' tr'|ws' name' post' args'|ws' k' b' tr'|ws' text' post'|ws' mid'|ws' bws' name' args' b' tr' ews'|ws' chars' args'|ws' name' post' dc' text'|ws' bws' name' oarg' text'|ws' oc' cc' b' tr'| |vw' od' cd' vt'];
+    destruct i as [ws cs|ws b tr|ws name post args|ws k b tr|ws text post|ws mid|ws bws name args b tr ews|ws chars args|ws name post dc text|ws bws name oarg text|ws oc cc b tr| |vw od cd vt|pw ptx ppost pa0];
+      destruct i' as [ws' cs'|ws' b' tr'|ws' name' post' args'|ws' k' b' tr'|ws' text' post'|ws' mid'|ws' bws' name' args' b' tr' ews'|ws' chars' args'|ws' name' post' dc' text'|ws' bws' name' oarg' text'|ws' oc' cc' b' tr'| |vw' od' cd' vt'|pw' ptx' ppost' pa0'];
       try contradiction; cbn [absorb_item2 item_ws2] in *.
     - cbn [wsv2] in Wi. destruct Wi as [W1 <-]. apply cs_push_pending; [exact C|].
       apply feq_app. apply wse_feq. exact W1.
@@ -176,6 +186,7 @@ Section Ws.
     - apply cs_push_node; [|exact N1|congruence]. apply cs_pre_flush; [exact C|]. cbn [wsv2] in Wi. tauto.
     - apply cs_push_node; [|exact N1|congruence]. apply cs_pre_flush; [exact C|].
       split; [reflexivity|split; [reflexivity|tauto]].
+    - apply cs_push_node; [|exact N1|congruence]. apply cs_pre_flush; [exact C|]. cbn [wsv2] in Wi. tauto.
     - apply cs_push_node; [|exact N1|congruence]. apply cs_pre_flush; [exact C|]. cbn [wsv2] in Wi. tauto.
   Qed.
 
